@@ -13,16 +13,20 @@
       C. the algebra of the co-iteration lattice (model/Exhaust.v): zeroing a tensor in an
          expression is evaluating it with that leaf reading 0, and a sparse context is 0 wherever
          all its sparse leaves read 0.
-    What is NOT proved: that the loops emitted by iteration_graph/_generate_ir.py compute
-    [denote] of the desugared assignment.  That step is covered by testing only (the C01 check
+      D. (stretch) the iteration graph is an untrusted certificate: a graph accepted by the
+         checker [graph_ok] (model/DesugarSemGraph.v) denotes, as a loop nest, the desugared
+         assignment, hence [spec]; the check runs [graph_ok] on the REAL first graph of every
+         swept problem.
+    What is NOT proved: that the loops emitted by iteration_graph/_generate_ir.py compute the
+    loop-nest meaning [gdenote] of the graph.  That step is covered by testing only (the C01 check
     runs the real kernels against [spec] on a sweep of problems x formats x inputs).
 
     The models are tied to /repo on every run by correspondence (tools/props/C01.py). *)
 
 From Coq Require Import ZArith List Bool String Permutation.
-From TV Require Import spec.Storage spec.Spec model.DesugarSem model.Exhaust
+From TV Require Import spec.Storage spec.Spec model.DesugarSem model.Exhaust model.DesugarSemGraph
   proofs.SpecSums proofs.SpecInvariance proofs.SpecRename proofs.DesugarSemProofs
-  proofs.ExhaustProofs.
+  proofs.ExhaustProofs proofs.DesugarSemGraphProofs.
 Import ListNotations.
 Open Scope Z_scope.
 
@@ -143,7 +147,7 @@ Print Assumptions C01_exhaust_sound.
 Theorem C01_exhaust_removes :
   forall (O : ringops) (e : iexpr O) (t : string),
     ~ In t (tensor_ids (exhaust e t)) /\ incl (tensor_ids (exhaust e t)) (tensor_ids e).
-Proof. intros; split; [apply exhaust_removes | apply exhaust_ids_incl]. Qed.
+Proof. exact exhaust_removes_and_incl. Qed.
 Print Assumptions C01_exhaust_removes.
 
 Theorem C01_sparse_context_sound :
@@ -156,6 +160,36 @@ Theorem C01_sparse_context_sound :
     evalE sigma e = r0.
 Proof. exact sparse_context_sound. Qed.
 Print Assumptions C01_sparse_context_sound.
+
+(** ** D (stretch). the iteration graph as a checked certificate *)
+
+(** a graph accepted by the checker denotes, as a loop nest (an IterationNode without output layer
+    sums over its index, one with an output layer leaves it free, a SumNode adds, a TerminalNode
+    evaluates), exactly what the desugared expression denotes.  [ords] gives each tensor's mode
+    ordering (graph leaves list their indexes in level order). *)
+Theorem C01_graph_validator_sound :
+  forall (O : ringops), ring_ok O ->
+  forall (E : env O) (sizes : string -> Z) (ords : string -> list nat) (Reqb : O -> O -> bool),
+    (forall x y, Reqb x y = true -> x = y) ->
+  forall (d : dexpr O) (g : graph O),
+    graph_ok ords Reqb d g = true ->
+    forall rho, gdenote E sizes ords g rho = denote E sizes d rho.
+Proof. exact graph_validator_sound. Qed.
+Print Assumptions C01_graph_validator_sound.
+
+(** ... hence the specification: always for the repaired desugaring, under the guard for today's *)
+Theorem C01_graph_pipeline_correct :
+  forall (O : ringops), ring_ok O ->
+  forall (E : env O) (sizes : string -> Z) (ords : string -> list nat) (Reqb : O -> O -> bool),
+    (forall x y, Reqb x y = true -> x = y) ->
+  forall (ord : nat -> list string -> list string),
+    (forall n l, Permutation (ord n l) l) ->
+  forall (fixed : bool) (a : assignment O) (g : graph O),
+    (fixed = true \/ assignment_hoist_ok a = true) ->
+    graph_ok ords Reqb (desugar_rhs ord fixed a) g = true ->
+    forall c, gdenote E sizes ords g (bind (tgt_idx a) c) = spec a E sizes c.
+Proof. exact graph_pipeline_correct. Qed.
+Print Assumptions C01_graph_pipeline_correct.
 
 (** the ring the checks execute in is a ring *)
 Theorem C01_ZOps_ring : ring_ok ZOps.
